@@ -3,6 +3,9 @@
 package lexer
 
 import (
+	"unicode"
+	"unicode/utf8"
+
 	"github.com/elk-language/elk/token"
 )
 
@@ -71,6 +74,7 @@ func vxValid4(a, b, c, d byte) bool {
 }
 
 func VX_C03_lex_total() {
+	vxTerminates(64)
 	n := vxSourceLen()
 	src := vxString("src", n)
 	vxCheckStream(New(src), src, n, "lex", false)
@@ -120,6 +124,7 @@ func vxCheckStream(l *Lexer, src string, n int, tag string, positions bool) {
 }
 
 func VX_C03_lex_modes() {
+	vxTerminates(64)
 	l, src, n := vxLexerInMode()
 	vxCheckStream(l, src, n, "modes", false)
 }
@@ -152,12 +157,20 @@ func vxLexerInMode() (*Lexer, string, int) {
 		// these modes are only entered with the offending escape at the cursor
 		vxAssume(n >= 2 && src[0] == '\\')
 	}
+	if m == regexFlagMode {
+		// entered only when a letter follows the closing `/` (scanRegexLiteral), and left as soon
+		// as the character after the current flag is not a letter (scanRegexFlag)
+		vxAssume(n >= 1)
+		r, _ := utf8.DecodeRuneInString(src)
+		vxAssume(unicode.IsLetter(r))
+	}
 	return l, src, n
 }
 
 // doc comments: `##[` body `]##` and `/**` body `**/` with an arbitrary body of <= 7 bytes over
 // the alphabet {space, newline, 'a'} (the de-indentation code slices lines by computed widths)
 func VX_C03_doc_comment() {
+	vxTerminates(64)
 	n := 3 + vxSplit("len", 5) // 3..7
 	body := vxString("body", n)
 	for i := 0; i < n; i++ {
